@@ -155,10 +155,55 @@ def image_classes():
             'ana': nib.AnalyzeImage}
 
 
-def make_img(cls, shape, A, dim=None, proxy=False):
-    """image with data = arange(size); proxy=True: written to in-memory files and loaded back, so that
-    dataobj is an ArrayProxy and img.slicer / as_reoriented go through fileslice.py"""
-    data = np.arange(int(np.prod(shape)), dtype=np.int32).reshape(shape)
+KINDS = {'i32': 'int32 arange', 'i16': 'int16 arange', 'i32big': 'int32 above 2**24 (odd: not exact in float32)',
+         'i64': 'int64 above 2**40', 'f64': 'float64 with more than 24 significant bits'}
+HISTS = [(), (), ('G64',), ('G32',), ('G32', 'E'), ('G32', 'U'), ('N32',), ('G64', 'E', 'G32'), ('G32', 'U', 'G64')]
+
+
+def make_data(kind, shape):
+    n = int(np.prod(shape))
+    a = np.arange(n, dtype=np.int64)
+    if kind == 'i16':
+        d = a.astype(np.int16)
+    elif kind == 'i32big':
+        d = (2 ** 24 + 1 + 2 * a).astype(np.int32)
+    elif kind == 'i64':
+        d = 2 ** 40 + 3 * a
+    elif kind == 'f64':
+        d = a.astype(np.float64) + 1.0 + 2.0 ** -30
+    else:
+        d = a.astype(np.int32)
+    return d.reshape(shape)
+
+
+def cache_op(img, tok):
+    """one step of a get_fdata-cache history on an image object (read-only accessors, an in-place edit of the
+    array get_fdata returned when that array is not the image's own data, uncache)"""
+    if tok == 'G64':
+        img.get_fdata()
+    elif tok == 'G32':
+        img.get_fdata(dtype=np.float32)
+    elif tok == 'N32':
+        img.get_fdata(dtype=np.float32, caching='unchanged')
+    elif tok == 'U':
+        img.uncache()
+    elif tok == 'E':
+        c = getattr(img, '_fdata_cache', None)
+        if c is not None and not (isinstance(img.dataobj, np.ndarray) and np.shares_memory(c, img.dataobj)):
+            c += 7
+
+
+def hist_tokens(hist):
+    """the same history for the model's `ops` line (conversions are tagged so that a use of the cache would show)"""
+    m = {'G64': 'G=1000', 'G32': 'G=2000', 'N32': 'N=2000', 'E': 'E=7', 'U': 'U=0'}
+    return [m[t] for t in hist]
+
+
+def make_img(cls, shape, A, dim=None, proxy=False, kind='i32', hist=()):
+    """image whose voxel values are distinct and name their source voxel (KINDS); proxy=True: written to in-memory
+    files and loaded back, so that dataobj is an ArrayProxy and img.slicer / as_reoriented go through fileslice.py;
+    hist: get_fdata-cache history applied to the image object before it is used"""
+    data = make_data(kind, shape)
     klass = image_classes()[cls]
     img = klass(data, A)
     if dim is not None and cls in ('n1', 'n2', 'p1'):
@@ -166,28 +211,47 @@ def make_img(cls, shape, A, dim=None, proxy=False):
     if proxy:
         import io
         from nibabel.fileholders import FileHolder
-        fm = klass.make_file_map()
-        for k in fm:
-            fm[k] = FileHolder(fileobj=io.BytesIO())
-        if len(fm) == 1 or cls in ('n1', 'n2'):
-            fm = {k: FileHolder(fileobj=io.BytesIO()) for k in fm}
+        fm = {k: FileHolder(fileobj=io.BytesIO()) for k in klass.make_file_map()}
         img.to_file_map(fm)
         img = klass.from_file_map(fm)
-        if isinstance(img.dataobj, np.ndarray) or not np.array_equal(np.asarray(img.dataobj), data):
+        got = np.asarray(img.dataobj)
+        if isinstance(img.dataobj, np.ndarray) or got.dtype != data.dtype or not np.array_equal(got, data):
             raise RuntimeError('proxy image construction failed')
+    for tok in hist:
+        cache_op(img, tok)
+    if not np.array_equal(np.asarray(img.dataobj), data):
+        raise RuntimeError('cache history changed the source dataobj')
     return img, data
 
 
+def decode(values, src):
+    """C-order source offsets of `values` in `src` (distinct values), -1 where a value is not a source value"""
+    flat = np.asarray(values).ravel()
+    sv = np.asarray(src).ravel()
+    if flat.dtype != sv.dtype:
+        return np.full(flat.shape, -1, dtype=np.int64)
+    order = np.argsort(sv, kind='stable')
+    pos = np.clip(np.searchsorted(sv[order], flat), 0, sv.size - 1)
+    idx = order[pos]
+    return np.where(sv[idx] == flat, idx, -1).astype(np.int64)
+
+
 # ------------------------------------------------------------------ the property predicate
-def world_check(new, old_affine, old_shape):
-    """Every output voxel: value = value of a distinct input voxel (read off the data), same world
-    position, non-spatial indices unchanged.  Returns (None | reason, S, J)."""
+def world_check(new, old_affine, old_shape, src=None):
+    """Every output voxel: value AND dtype of the stored data (dataobj, not get_fdata) = those of a distinct
+    input voxel of the source dataobj, same world position.  Returns (None | reason, S, J)."""
     out = np.asarray(new.dataobj)
+    if src is None:
+        src = make_data('i32', old_shape)
+    if out.dtype != src.dtype:
+        return f'dataobj of the result has dtype {out.dtype}, the source dataobj {src.dtype}', None, None
     if out.size == 0:       # no voxel to misplace (the slicer documents a refusal here: correspondence)
         return None, None, None
-    flat = out.ravel()
-    size = int(np.prod(old_shape))
-    if flat.min() < 0 or flat.max() >= size or len(np.unique(flat)) != flat.size:
+    flat = decode(out, src)
+    if flat.min() < 0:
+        k = int(np.argmax(flat < 0))
+        return f'stored value {out.ravel()[k]!r} of the result is not a value of the source dataobj', None, None
+    if len(np.unique(flat)) != flat.size:
         return 'output values are not distinct input voxels', None, None
     J = np.indices(out.shape).reshape(out.ndim, -1)
     S = np.array(np.unravel_index(flat, old_shape))
@@ -215,7 +279,7 @@ def reorient_predicate(img, data, new, o, nifti):
     if new is img:
         return None if np.array_equal(np.asarray(o), [[0, 1], [1, 1], [2, 1]]) else \
             'the same image returned for a non-identity orientation'
-    bad, S, J = world_check(new, img.affine, img.shape)
+    bad, S, J = world_check(new, img.affine, img.shape, data)
     if bad:
         return bad
     out = np.asarray(new.dataobj)
@@ -260,7 +324,10 @@ def run(chk: Check):
                 'tables (word labels, 2 and 4 pairs, duplicated codes, dropped rows, bad directions); (E) orientations of 1, 2 '
                 'and 4 axes through apply_orientation / inv_ornt_aff / ornt_transform and their refusals, flip_axis; (F) '
                 'four_to_three, squeeze_image, concat_images(four_to_three), as_closest_canonical(enforce_diag=True). '
-                'Non-trivial: a non-identity orientation '
+                'Voxel data of five kinds (int32/int16 arange, int32 > 2**24, int64 > 2**40, float64 with > 24 significant bits) and a '
+                'get_fdata-cache HISTORY before every reorient/canonicalise/slicer call and between the calls of a sequence (none, '
+                'get_fdata(), get_fdata(float32), caching=unchanged, edited cache, uncache, refilled); values AND dtype of the result '
+                'dataobj are compared exactly with the source dataobj. Non-trivial: a non-identity orientation '
                 'or an index that is not the whole array, not refused; distinct by (op, shape, orientation/index, affine, class)')
     chk.assumptions = ['images carry data = arange(size) (int32, unscaled), in memory or file-backed through in-memory files: the '
                        'value of a voxel names its source voxel, so value equality is checked at every voxel of every result',
@@ -317,16 +384,19 @@ def run(chk: Check):
                 dim = tuple(rng.sample([0, 1, 2], 3)) if rng.random() < 0.6 else \
                     tuple(rng.choice([None, 0, 1, 2]) for _ in range(3))
             nifti = cls in ('n1', 'n2', 'p1')
-            img, data = make_img(cls, shape, A, dim, proxy=(nifti and (oi + si) % 4 == 0))
+            kind = rng.choice(['i32', 'i32', 'i16', 'f64'] + (['i32big', 'i64'] if nifti else []))
+            hist = HISTS[rng.randrange(len(HISTS))] if si >= len(fixed_shapes) else HISTS[(oi + si) % len(HISTS)]
+            img, data = make_img(cls, shape, A, dim, proxy=(nifti and (oi + si) % 4 == 0), kind=kind, hist=hist)
             oarg = o.astype(float) if (oi + si) % 2 else o
             case = {'op': 'as_reoriented', 'cls': cls, 'shape': list(shape), 'ornt': ornt2s(o), 'affine': mat2s(A),
+                    'kind': kind, 'hist': list(hist), 'proxy': not isinstance(img.dataobj, np.ndarray),
                     'dim_info': list(dim) if nifti else None}
             try:
                 new = img.as_reoriented(oarg)
                 same = new is img
                 ndim_info = new.header.get_dim_info() if nifti else ()
                 exp = (f'ok same={int(same)} shape={lst(new.shape)} aff={affs(new.affine)} '
-                       f'dim={opts2s(ndim_info)} srcs={lst(np.asarray(new.dataobj).ravel())}')
+                       f'dim={opts2s(ndim_info)} srcs={lst(decode(new.dataobj, data))}')
                 pred = reorient_predicate(img, data, new, o, nifti)
             except Exception as e:  # a refusal is never expected inside the quantifier
                 new = None
@@ -336,6 +406,8 @@ def run(chk: Check):
             chk.count(key=('R', cls, shape, ornt2s(o), mat2s(A), dim) if not ident else None,
                       tag=f'R:rank{len(shape)}:{"nifti" if nifti else "analyze"}',
                       sample=case if ri in (7, 150) else None)
+            chk.tagc('data:' + kind)
+            chk.tagc('cache-history:' + ('+'.join(hist) or 'none'))
             cid = f'R{ri}'
             ri += 1
             add(cid, f'reorient {int(nifti)} {lst(shape)} {ornt2s(o)} {mat2s(A)} {opts2s(dim) if nifti else "()"}',
@@ -346,20 +418,23 @@ def run(chk: Check):
     # ============================================================== (S) slicer
     img_cache = {}
 
-    def slicer_case(tag, shape, ix, A, cls='n1', sample=False, proxy=False, dim=None):
+    def slicer_case(tag, shape, ix, A, cls='n1', sample=False, proxy=False, dim=None, kind='i32', hist=()):
         nifti = cls in ('n1', 'n2', 'p1')
         proxy = proxy and nifti                 # Analyze files cannot hold an arbitrary affine
         dim = dim if nifti else None
-        ck = (cls, shape, A.tobytes(), proxy, dim)      # the slicer never modifies its image: reuse it
+        if kind in ('i32big', 'i64') and not nifti:
+            kind = 'i32'
+        ck = (cls, shape, A.tobytes(), proxy, dim, kind, hist)      # the slicer never modifies its image: reuse it
         if ck not in img_cache:
             if len(img_cache) > 400:
                 img_cache.clear()
-            img_cache[ck] = make_img(cls, shape, A, dim, proxy)
+            img_cache[ck] = make_img(cls, shape, A, dim, proxy, kind, hist)
         img, data = img_cache[ck]
         if proxy and not np.array_equal(img.affine, A):
             raise RuntimeError('affine changed by the file round trip')
         ixs = ix2s(ix)
         case = {'op': 'slicer', 'cls': cls, 'shape': list(shape), 'ix': ixs, 'affine': mat2s(A), 'proxy': proxy,
+                'kind': kind, 'hist': list(hist),
                 'dim_info': list(dim) if dim else None}
         pred = None
         try:
@@ -370,11 +445,11 @@ def run(chk: Check):
             new = img.slicer[ix]
             out = np.asarray(new.dataobj)
             ndim_info = new.header.get_dim_info() if nifti else ()
-            exp = f'ok shape={lst(new.shape)} aff={affs(new.affine)} dim={opts2s(ndim_info)} srcs={lst(out.ravel())}'
-            if want is None or out.shape != want.shape or not np.array_equal(out, want):
+            exp = f'ok shape={lst(new.shape)} aff={affs(new.affine)} dim={opts2s(ndim_info)} srcs={lst(decode(out, data))}'
+            if want is None or out.shape != want.shape or out.dtype != want.dtype or not np.array_equal(out, want):
                 pred = 'sliced image data differ from data[index]'
             else:
-                pred, S, J = world_check(new, img.affine, img.shape)
+                pred, S, J = world_check(new, img.affine, img.shape, data)
             if nifti and ndim_info != img.header.get_dim_info():
                 pred = pred or f'slicing changed dim_info {img.header.get_dim_info()} -> {ndim_info} (spatial axes stay in place)'
         except Exception as e:
@@ -414,7 +489,8 @@ def run(chk: Check):
             for si, s in enumerate(slices_for(n) + [slice(None, None, 0), slice(1, 3, 0)]):
                 ix = (slice(None),) * ax + (s,)
                 slicer_case('S1:one-axis', shape, ix, A, cls='n1' if si % 5 else 'spm', sample=(ax == 1 and n == 4 and si == 777),
-                            proxy=(si % 3 == 1), dim=(2, 0, 1) if si % 2 else (None, 1, 0))
+                            proxy=(si % 3 == 1), dim=(2, 0, 1) if si % 2 else (None, 1, 0),
+                            kind=('i32', 'f64', 'i32big', 'i16')[si % 4], hist=HISTS[si % len(HISTS)])
     # (S2) pairs of representative slices on two spatial axes
     reps = {}
     for n in (2, 3, 4):
@@ -463,7 +539,8 @@ def run(chk: Check):
             if isinstance(ix[j], slice):
                 ix[j] = slice(ix[j].start, ix[j].stop, 0)
         slicer_case('S3:random', shape, tuple(ix), rand_affine(rng), cls=rng.choice(['n1', 'n1', 'n2', 'p1', 'ana']), sample=(k == 11),
-                    proxy=rng.random() < 0.4, dim=tuple(rng.choice([None, 0, 1, 2]) for _ in range(3)))
+                    proxy=rng.random() < 0.4, dim=tuple(rng.choice([None, 0, 1, 2]) for _ in range(3)),
+                    kind=rng.choice(list(KINDS)), hist=HISTS[rng.randrange(len(HISTS))])
 
     # (S4) realistic axis lengths: the read strategy of fileslice (full / contiguous / skip) depends on the strides
     big = [(20, 17, 9), (33, 20, 13), (16, 16, 16, 3), (7, 40, 11)]
@@ -501,12 +578,19 @@ def run(chk: Check):
         nifti = cls in ('n1', 'n2', 'p1')
         A = rand_affine(rng)
         dim = tuple(rng.sample([0, 1, 2], 3)) if rng.random() < 0.7 else tuple(rng.choice([None, 0, 1, 2]) for _ in range(3))
-        img, data = make_img(cls, shape, A, dim, proxy=(nifti and rng.random() < 0.3))
+        kind = rng.choice(['i32', 'i16', 'f64'] + (['i32big', 'i64'] if nifti else []))
+        hist = HISTS[rng.randrange(len(HISTS))]
+        img, data = make_img(cls, shape, A, dim, proxy=(nifti and rng.random() < 0.3), kind=kind, hist=hist)
         cur = img
-        toks = []
+        toks = hist_tokens(hist)
         hyps = []
         err = None
         for _ in range(rng.choice([2, 2, 3, 3, 4])):
+            if rng.random() < 0.4:      # cache operations on the intermediate image, between the calls
+                h2 = HISTS[rng.randrange(2, len(HISTS))]
+                for t in h2:
+                    cache_op(cur, t)
+                toks += hist_tokens(h2)
             if rng.random() < 0.5:
                 o = ORNTS[rng.randrange(48)]
                 toks.append('R=' + ornt2s(o))
@@ -540,13 +624,13 @@ def run(chk: Check):
                     err = err_enum(e)
                     break
         case = {'op': 'sequence', 'cls': cls, 'shape': list(shape), 'affine': mat2s(A), 'dim_info': list(dim) if nifti else None,
-                'ops': ';'.join(toks), 'proxy': not isinstance(img.dataobj, np.ndarray)}
+                'ops': ';'.join(toks), 'proxy': not isinstance(img.dataobj, np.ndarray), 'kind': kind}
         pred = None
         if err is None:
             out = np.asarray(cur.dataobj)
             ndim_info = cur.header.get_dim_info() if nifti else ()
-            exp = f'ok shape={lst(cur.shape)} aff={affs(cur.affine)} dim={opts2s(ndim_info)} srcs={lst(out.ravel())}'
-            pred, S, J = world_check(cur, img.affine, img.shape)
+            exp = f'ok shape={lst(cur.shape)} aff={affs(cur.affine)} dim={opts2s(ndim_info)} srcs={lst(decode(out, data))}'
+            pred, S, J = world_check(cur, img.affine, img.shape, data)
             if not pred and nifti and S is not None:
                 for lab, a, kk in zip(('freq', 'phase', 'slice'), img.header.get_dim_info(), ndim_info):
                     if (a is None) != (kk is None):
@@ -561,7 +645,8 @@ def run(chk: Check):
             exp = err
             chk.refusal('Q:' + err[4:])
         chk.count(key=('Q', cls, shape, mat2s(A), ';'.join(toks)) if err is None else None,
-                  tag=f'Q:sequence:len{len(toks)}:' + ('ok' if err is None else 'refused'), sample=case if k == 3 else None)
+                  tag='Q:sequence:' + ('ok' if err is None else 'refused'), sample=case if k == 3 else None)
+        chk.tagc('Q:cache-ops-in-sequence', sum(1 for t in toks if t[0] in 'GNEU'))
         cid = f'Q{k}'
         add(cid, f'ops {int(nifti)} {lst(shape)} {mat2s(A)} {opts2s(dim) if nifti else "()"} {";".join(toks)}', exp, case, pred)
         for hi, (hs, hx) in enumerate(hyps):
@@ -849,7 +934,9 @@ def run(chk: Check):
         got = no.io_orientation(A)
         rs, at = scaled(R)
         add(f'C{ci}.l', f'ioloop {at} {rs} {p}', 'ok ' + ornt2s(got), case)
-        img, data = make_img('n1', shape, A, tuple(rng.sample([0, 1, 2], 3)), proxy=(exact and ci % 3 == 0))
+        ckind = ('i32', 'f64', 'i32big', 'i64', 'i16')[ci % 5]
+        img, data = make_img('n1', shape, A, tuple(rng.sample([0, 1, 2], 3)), proxy=(exact and ci % 3 == 0),
+                             kind=ckind, hist=HISTS[ci % len(HISTS)])
         try:
             c1 = as_closest_canonical(img)
             c2 = as_closest_canonical(c1)
@@ -864,18 +951,22 @@ def run(chk: Check):
             d0 = img.header.get_dim_info()
             add(f'C{ci}.r', f'reorient 1 {lst(shape)} {ornt2s(got)} {mat2s(A)} {opts2s(d0)}',
                 f'ok same={int(c1 is img)} shape={lst(c1.shape)} aff={affs(c1.affine)} '
-                f'dim={opts2s(c1.header.get_dim_info())} srcs={lst(np.asarray(c1.dataobj).ravel())}', case)
+                f'dim={opts2s(c1.header.get_dim_info())} srcs={lst(decode(c1.dataobj, data))}', case)
             pred = reorient_predicate(img, data, c1, got, True)
         else:
             # float affine: same voxels, world positions to rounding (relative to the voxel size)
             out = np.asarray(c1.dataobj)
-            J = np.indices(out.shape).reshape(out.ndim, -1)
-            S = np.array(np.unravel_index(out.ravel(), shape))
-            ones = np.ones((1, J.shape[1]))
-            wn, wo = c1.affine @ np.vstack([J[:3], ones]), A @ np.vstack([S[:3], ones])
-            if out.size != data.size or len(np.unique(out)) != out.size or \
-                    not np.allclose(wn, wo, rtol=1e-9, atol=1e-9 * float(np.abs(A[:3, :4]).max())):
-                pred = 'canonical image: a voxel was lost or moved in world space'
+            didx = decode(out, data)
+            if out.dtype != data.dtype or didx.min() < 0:
+                pred = 'canonical image: stored values or dtype differ from the source dataobj'
+            else:
+                J = np.indices(out.shape).reshape(out.ndim, -1)
+                S = np.array(np.unravel_index(didx, shape))
+                ones = np.ones((1, J.shape[1]))
+                wn, wo = c1.affine @ np.vstack([J[:3], ones]), A @ np.vstack([S[:3], ones])
+                if out.size != data.size or len(np.unique(didx)) != out.size or \
+                        not np.allclose(wn, wo, rtol=1e-9, atol=1e-9 * float(np.abs(A[:3, :4]).max())):
+                    pred = 'canonical image: a voxel was lost or moved in world space'
         dom = dominant(R)
         if dom:
             cstate['nhyp'] += 1
@@ -1101,7 +1192,8 @@ def replay(chk, obj):
     if isinstance(c, dict) and c.get('op') == 'slicer':
         shape = tuple(c['shape'])
         A = np.array([[float(x) for x in r.split(',')] for r in c['affine'].split('|')])
-        img, data = make_img(c['cls'], shape, A, tuple(c['dim_info']) if c.get('dim_info') else None, bool(c.get('proxy')))
+        img, data = make_img(c['cls'], shape, A, tuple(c['dim_info']) if c.get('dim_info') else None, bool(c.get('proxy')),
+                             c.get('kind', 'i32'), tuple(c.get('hist', ())))
         ix = s2ix(c['ix'])
         try:
             new = img.slicer[ix]
@@ -1109,7 +1201,7 @@ def replay(chk, obj):
             print('slicer raised', repr(e), '(a refusal)')
             print('property holds on this case')
             return 0
-        bad, _, _ = world_check(new, img.affine, img.shape)
+        bad, _, _ = world_check(new, img.affine, img.shape, data)
         if not bad and not np.array_equal(np.asarray(new.dataobj), data[ix]):
             bad = 'data differ from data[index]'
         print(bad or 'every voxel keeps value and world position')
@@ -1151,11 +1243,15 @@ def replay(chk, obj):
     if isinstance(c, dict) and c.get('op') == 'sequence':
         shape = tuple(c['shape'])
         A = np.array([[float(x) for x in r.split(',')] for r in c['affine'].split('|')])
-        img, data = make_img(c['cls'], shape, A, tuple(c['dim_info']) if c.get('dim_info') else None, bool(c.get('proxy')))
+        img, data = make_img(c['cls'], shape, A, tuple(c['dim_info']) if c.get('dim_info') else None, bool(c.get('proxy')),
+                             c.get('kind', 'i32'))
         cur = img
+        back = {'G=1000': 'G64', 'G=2000': 'G32', 'N=2000': 'N32', 'E=7': 'E', 'U=0': 'U'}
         try:
             for t in c['ops'].split(';'):
-                if t[0] == 'R':
+                if t in back:
+                    cache_op(cur, back[t])
+                elif t[0] == 'R':
                     cur = cur.as_reoriented(np.array([[int(x) for x in r.split(':')] for r in t[2:].split(',')]))
                 else:
                     cur = cur.slicer[s2ix(t[2:])]
@@ -1163,7 +1259,7 @@ def replay(chk, obj):
             print('raised', repr(e)[:200], '(a refusal)')
             print('property holds on this case')
             return 0
-        bad, _, _ = world_check(cur, img.affine, img.shape)
+        bad, _, _ = world_check(cur, img.affine, img.shape, data)
         print(bad or 'every voxel keeps value and world position through the sequence')
         print('property fails on this case' if bad else 'property holds on this case')
         return 1 if bad else 0
@@ -1171,7 +1267,8 @@ def replay(chk, obj):
         shape = tuple(c['shape'])
         A = np.array([[float(x) for x in r.split(',')] for r in c['affine'].split('|')])
         nifti = c['cls'] in ('n1', 'n2', 'p1')
-        img, data = make_img(c['cls'], shape, A, tuple(c['dim_info']) if nifti else None)
+        img, data = make_img(c['cls'], shape, A, tuple(c['dim_info']) if nifti else None, bool(c.get('proxy')),
+                             c.get('kind', 'i32'), tuple(c.get('hist', ())))
         o = np.array([[int(x) for x in r.split(':')] for r in c['ornt'].split(',')])
         try:
             new = img.as_reoriented(o)
